@@ -114,3 +114,33 @@ Theorem C10_reports_stay_in_the_session_with_fresh_request_ids :
     accepts step6ids {| i_in := false; i_sess := None; i_reqs := [] |} (run_case ep cfg url cup apps e) = true.
 Proof. exact model_accepted_ids. Qed.
 Print Assumptions C10_reports_stay_in_the_session_with_fresh_request_ids.
+
+(* ---- no report is written off without having been attempted: when the configuration lets every request be built
+   (valid service URL, updater name and app ids acceptable as header values), a lost-event metric only follows a request
+   whose exchange failed (Model/Monitors10l.v step10l) ---- *)
+Require Import Verif.Model.Monitors10l Verif.Proofs.C10lProof.
+Theorem C10_a_lost_event_follows_a_failed_exchange :
+  forall ep cfg url cup apps e, e_trace e = [] ->
+    accepts step10l (init10l cfg url cup apps) (run_case ep cfg url cup apps e) = true.
+Proof. exact model_accepted_c10l. Qed.
+Print Assumptions C10_a_lost_event_follows_a_failed_exchange.
+Section LossExamples.
+  Variable w : wire.
+  Let lost := AMetric (MOmahaEventLost (event_success ETUpdateDownloadStarted)).
+  Let strict := {| strict10l := true; cup10l := true; armed10l := false |}.
+  (* the strict mode is reachable, and in it: a loss after a delivered exchange or with no exchange at all is rejected, a
+     loss after a transport error, an error status or an unauthenticated response is accepted *)
+  Example C10_loss_monitor_is_strict_somewhere :
+    buildable {| cfg_name := s2b "updater"; cfg_uver := (1, 2, 3, 4)%N; os_platform := s2b "p"; os_version := s2b "1.0"; os_sp := []; os_arch := s2b "x"; cfg_url := s2b "http://h/" |}
+              {| u_valid := true; u_prefix := s2b "http://h"; u_path := s2b "/"; u_query := None |}
+              [{| a_id := s2b "{app-1}"; a_ver := (1, 0, 0, 0)%N; a_fp := None; a_cohort := cohort_none; a_uc := None; a_extra := [] |}] = true.
+  Proof. vm_compute. reflexivity. Qed.
+  Example C10_loss_monitor_rejects_unattempted_losses :
+    accepts step10l strict [lost] = false
+    /\ accepts step10l strict [AHttp w (HResp 200%N None true BBad); lost] = false
+    /\ accepts step10l strict [AHttp w (HErr TTransport); lost; lost] = true
+    /\ accepts step10l strict [AHttp w (HResp 503%N None true BBad); lost] = true
+    /\ accepts step10l strict [AHttp w (HResp 200%N None false BBad); lost] = true
+    /\ accepts step10l strict [AHttp w (HErr TTransport); AHttp w (HResp 200%N None true BBad); lost] = false.
+  Proof. vm_compute. repeat split; reflexivity. Qed.
+End LossExamples.
